@@ -149,17 +149,29 @@ class InterpBase(object):
                         if isinstance(t, ast.Subscript) and \
                                 isinstance(t.value, ast.Attribute) and \
                                 isinstance(t.value.value, ast.Name) and \
-                                t.value.value.id == "self" and \
-                                isinstance(node.value, ast.Call) and \
-                                isinstance(node.value.func, ast.Name) and \
-                                node.value.func.id in repo.classes:
-                            self.registries[(cname, t.value.attr)] = {
-                                "owner": cname, "attr": t.value.attr,
-                                "value_cls": node.value.func.id,
-                                "construct": node.value,
-                                "key_expr": t.slice,
-                                "func": meth,
-                            }
+                                t.value.value.id == "self":
+                            call = node.value
+                            if isinstance(call, ast.Name):
+                                # x = T(...); self.R[k] = x
+                                cands = [n.value for n in ast.walk(meth.node)
+                                         if isinstance(n, ast.Assign) and
+                                         len(n.targets) == 1 and
+                                         isinstance(n.targets[0], ast.Name) and
+                                         n.targets[0].id == call.id and
+                                         isinstance(n.value, ast.Call) and
+                                         isinstance(n.value.func, ast.Name) and
+                                         n.value.func.id in repo.classes]
+                                call = cands[0] if len(cands) == 1 else None
+                            if isinstance(call, ast.Call) and \
+                                    isinstance(call.func, ast.Name) and \
+                                    call.func.id in repo.classes:
+                                self.registries[(cname, t.value.attr)] = {
+                                    "owner": cname, "attr": t.value.attr,
+                                    "value_cls": call.func.id,
+                                    "construct": call,
+                                    "key_expr": t.slice,
+                                    "func": meth,
+                                }
         # id attribute of each registry's value class (the slot the key goes to)
         self.id_attrs = set()
         for key, r in self.registries.items():
@@ -208,6 +220,12 @@ class InterpBase(object):
             f = expr.func
             if isinstance(f, ast.Name) and f.id in repo.classes:
                 return f.id
+            if isinstance(f, ast.Attribute) and f.attr in ("get", "pop", "setdefault") and \
+                    isinstance(f.value, ast.Attribute) and \
+                    isinstance(f.value.value, ast.Name) and f.value.value.id == "self":
+                r = self.registries.get((cls, f.value.attr))
+                if r:
+                    return r["value_cls"]
             if isinstance(f, ast.Attribute):
                 # method by unique name among internal classes
                 cands = [c for c, (m, cd) in repo.classes.items()
@@ -236,8 +254,10 @@ class InterpBase(object):
                         for t in node.targets:
                             if isinstance(t, ast.Name) and t.id == expr.id:
                                 vals.append(node.value)
-                if len(vals) == 1:
-                    return self._expr_type(vals[0], cls, func, depth + 1)
+                tys = set(self._expr_type(v, cls, func, depth + 1) for v in vals)
+                tys.discard(None)
+                if len(tys) == 1:
+                    return tys.pop()
             return "?"
         if isinstance(expr, (ast.Dict, ast.List, ast.Tuple, ast.Set,
                              ast.Compare, ast.BoolOp, ast.BinOp)):
